@@ -1265,9 +1265,9 @@ namespace chaiscript {
           : AST_Node_Impl<T>(std::move(t_ast_node_text), AST_Node_Type::Try, std::move(t_loc), std::move(t_children)) {
       }
 
-      Boxed_Value handle_exception(const chaiscript::detail::Dispatch_State &t_ss, const Boxed_Value &t_except) const {
-        Boxed_Value retval;
-
+      /// Runs the first catch clause that accepts t_except.
+      /// \returns false if no clause accepts it: the exception is then not handled here and must keep propagating
+      bool handle_exception(const chaiscript::detail::Dispatch_State &t_ss, const Boxed_Value &t_except, Boxed_Value &retval) const {
         size_t end_point = this->children.size();
         if (this->children.back()->identifier == AST_Node_Type::Finally) {
           assert(end_point > 0);
@@ -1280,7 +1280,7 @@ namespace chaiscript {
           if (catch_block.children.size() == 1) {
             // No variable capture
             retval = catch_block.children[0]->eval(t_ss);
-            break;
+            return true;
           } else if (catch_block.children.size() == 2 || catch_block.children.size() == 3) {
             const auto name = Arg_List_AST_Node<T>::get_arg_name(*catch_block.children[0]);
 
@@ -1293,18 +1293,15 @@ namespace chaiscript {
               if (catch_block.children.size() == 2) {
                 // Variable capture
                 retval = catch_block.children[1]->eval(t_ss);
-                break;
+                return true;
               }
             }
           } else {
-            if (this->children.back()->identifier == AST_Node_Type::Finally) {
-              this->children.back()->children[0]->eval(t_ss);
-            }
             throw exception::eval_error("Internal error: catch block size unrecognized");
           }
         }
 
-        return retval;
+        return false;
       }
 
       Boxed_Value eval_internal(const chaiscript::detail::Dispatch_State &t_ss) const override {
@@ -1313,18 +1310,33 @@ namespace chaiscript {
         chaiscript::eval::detail::Scope_Push_Pop spp(t_ss);
 
         try {
-          retval = this->children[0]->eval(t_ss);
-        } catch (const exception::eval_error &e) {
-          retval = handle_exception(t_ss, Boxed_Value(std::ref(e)));
-        } catch (const std::runtime_error &e) {
-          retval = handle_exception(t_ss, Boxed_Value(std::ref(e)));
-        } catch (const std::out_of_range &e) {
-          retval = handle_exception(t_ss, Boxed_Value(std::ref(e)));
-        } catch (const std::exception &e) {
-          retval = handle_exception(t_ss, Boxed_Value(std::ref(e)));
-        } catch (Boxed_Value &e) {
-          retval = handle_exception(t_ss, e);
+          // An exception that no catch clause accepts is re-thrown unchanged
+          try {
+            retval = this->children[0]->eval(t_ss);
+          } catch (const exception::eval_error &e) {
+            if (!handle_exception(t_ss, Boxed_Value(std::ref(e)), retval)) {
+              throw;
+            }
+          } catch (const std::runtime_error &e) {
+            if (!handle_exception(t_ss, Boxed_Value(std::ref(e)), retval)) {
+              throw;
+            }
+          } catch (const std::out_of_range &e) {
+            if (!handle_exception(t_ss, Boxed_Value(std::ref(e)), retval)) {
+              throw;
+            }
+          } catch (const std::exception &e) {
+            if (!handle_exception(t_ss, Boxed_Value(std::ref(e)), retval)) {
+              throw;
+            }
+          } catch (Boxed_Value &e) {
+            if (!handle_exception(t_ss, e, retval)) {
+              throw;
+            }
+          }
         } catch (...) {
+          // Leaving by an exception (not handled, thrown by a catch block, foreign type, or an
+          // interrupt such as return/break): the finally block still runs, exactly once
           if (this->children.back()->identifier == AST_Node_Type::Finally) {
             this->children.back()->children[0]->eval(t_ss);
           }
